@@ -245,6 +245,23 @@ class ModelInterp(MiniEval):
                         return self.expr(v, {})
                     finally:
                         self.modstack.pop()
+        # an instance attribute the constructor initialises to a constant (`self._last = None`, `self._seen = {}`): a stand-in the rule built by hand
+        # without running __init__ starts with that value (a fresh one per stand-in)
+        if inst is not None:
+            for c in self.a.ct.mro(cls_q):
+                ci = self.a.p.classes.get(c)
+                init = ci.methods.get('__init__') if ci is not None else None
+                if init is None:
+                    continue
+                for n in ast.walk(init.node):
+                    tgt = n.targets[0] if isinstance(n, ast.Assign) and len(n.targets) == 1 else (n.target if isinstance(n, ast.AnnAssign) and n.value is not None else None)
+                    if isinstance(tgt, ast.Attribute) and tgt.attr == attr and isinstance(tgt.value, ast.Name) and tgt.value.id == 'self':
+                        try:
+                            val = ast.literal_eval(n.value)
+                        except Exception:  # noqa: BLE001 - not a constant initialiser
+                            continue
+                        inst._attrs[attr] = val
+                        return val
         raise Unsupported(f'attribute {attr!r} not found on {cls_q.split(".")[-1]} (stub has {sorted(inst._attrs) if inst else "-"})')
 
     def attribute(self, e: ast.Attribute, env: dict) -> Any:
